@@ -89,8 +89,10 @@ w_h_append_promote(int cache)
     CK("Hopen", fid == FAIL);
     if (fid == FAIL)
         return;
-    if (!cache)
-        Hcache(fid, 0);
+    if (!cache) {
+        api("Hcache");
+        CK("Hcache", Hcache(fid, 0) == FAIL);
+    }
     fill(d, 8, 1);
     api("Hputelement");
     CK("Hputelement", Hputelement(fid, 300, 1, d, 8) != 8);
